@@ -50,7 +50,11 @@ def one_scenario(chk, idx, branch):
     rng = chk.rng
     root = vlib.scratch("c02_%d" % idx)
     k = rng.choice([1, 2, 3, 5, 8, 13, 20])
-    blobs = [pipeline.make_info(rng, i, PATHS) for i in range(k)]
+    # in a third of the scenarios some artifacts are really malformed (rejected whole by parse_lcov), at least as many
+    # as the smallest thread count now and then: the well-formed ones must still be counted, for every N
+    nbad = rng.choice([1, 1, 2, 3, 4]) if rng.random() < 0.35 else 0
+    bad = set(rng.sample(range(k), min(nbad, k)))
+    blobs = [pipeline.make_info(rng, i, PATHS, malformed=(i in bad)) for i in range(k)]
     args = pipeline.lay_out(rng, os.path.join(root, "in"), blobs)
     parsed = vlib.run_impl("parse", [{"hex": b.hex(), "format": "info", "branch": branch} for b in blobs], chk.pid)
     batches = [[[n, gen.cov_canon(c)] for n, c in r["ok"]] if "ok" in r else None for r in parsed]
@@ -186,7 +190,7 @@ def run(chk):
     okn = validate_traces(chk)
     chk.cov["traces_validated_against_impl"] = okn
     chk.extra["distribution"] = {"scenarios": n, "artifact_counts": sizes, "runs": chk.cov["evaluations"]}
-    chk.cov["rule"] = ("scenarios of 1-20 unique lcov artifacts (plus, in 40% of them, 1-3 JaCoCo reports and/or 1-3 LLVM gcno+gcda pairs with --llvm) spread over directories, nested directories, a zip and plain arguments, sometimes with one plain argument listed twice; each scenario run 3 times with "
+    chk.cov["rule"] = ("scenarios of 1-20 unique lcov artifacts (plus, in 40% of them, 1-3 JaCoCo reports and/or 1-3 LLVM gcno+gcda pairs with --llvm) spread over directories, nested directories, a zip and plain arguments, in a third of the scenarios with 1-4 of them malformed (rejected whole), sometimes with one plain argument listed twice; each scenario run 3 times with "
                        "different --threads (1..16), shuffled argument order and a schedule-perturbation seed; every run: (a) the lcov report decoded by an independent "
                        "reader must be the C01 aggregate of the per-artifact parse results (each artifact alone through the harness), one record per file; (b) the "
                        "per-thread hook event log is scheduled into a label sequence which Coq replays through Model/Pipeline.v (vm_compute): it must be an execution "
